@@ -541,3 +541,48 @@ func viaEdge(from *ssa.BasicBlock, side int, target *ssa.BasicBlock) bool {
 	// and it is reachable through the edge at all
 	return to == target || blockReaches(to, target, nil)
 }
+
+// guardedBy: target is reached only on side `side` of the test that ends block
+// from — directly (viaEdge) or through a boolean flag that is set to true only
+// on that side and tested before the target (`found = true; break` … `if !found
+// { return }`).
+func guardedBy(from *ssa.BasicBlock, side int, target *ssa.BasicBlock) bool {
+	if viaEdge(from, side, target) {
+		return true
+	}
+	if len(from.Succs) != 2 {
+		return false
+	}
+	for _, b := range from.Parent().Blocks {
+		for _, ins := range b.Instrs {
+			phi, isPhi := ins.(*ssa.Phi)
+			if !isPhi {
+				break
+			}
+			good, anyTrue := true, false
+			for i, e := range phi.Edges {
+				c, isC := e.(*ssa.Const)
+				if !isC || c.Value == nil || c.Value.Kind() != constant.Bool {
+					good = false
+					break
+				}
+				if constant.BoolVal(c.Value) {
+					anyTrue = true
+					p := b.Preds[i]
+					if !(p == from.Succs[side] && len(p.Preds) == 1 || viaEdge(from, side, p)) {
+						good = false
+					}
+				}
+			}
+			if !good || !anyTrue || phi.Referrers() == nil {
+				continue
+			}
+			for _, r := range *phi.Referrers() {
+				if ifi, isIf := r.(*ssa.If); isIf && ifi.Cond == ssa.Value(phi) && viaEdge(ifi.Block(), 0, target) {
+					return true
+				}
+			}
+		}
+	}
+	return false
+}
